@@ -42,6 +42,16 @@ Theorem C18_attestation_panic_fails_vote :
 Proof. exact claim_tx_panic. Qed.
 Print Assumptions C18_attestation_panic_fails_vote.
 
+(* a SendToFx claim forwarded over IBC is NOT a tolerated-failure boundary: deposit, conversion to the voucher and the transfer
+   run on one context and every error is returned (source fact ok_sendtofx); so a transfer that fails AFTER the conversion
+   wrote (closed channel, expired client) leaves nothing at all — no voucher, no burnt base coin — and the claim pending *)
+Theorem C18_sendtofx_ibc_failure_keeps_nothing :
+  forall S consume (deposit to_voucher transfer : S -> result S) s s1 s2 e,
+  deposit (consume s) = Ok s1 -> to_voucher s1 = Ok s2 -> transfer s2 = Err e ->
+  send_to_fx_ibc_tx S consume deposit to_voucher transfer s = (s, false).
+Proof. intros. eapply stf_failure_keeps_nothing. eapply stf_fails_at_transfer; eauto. Qed.
+Print Assumptions C18_sendtofx_ibc_failure_keeps_nothing.
+
 (* proposal: failure of the message at ANY position, after any number of succeeding messages *)
 Theorem C18_gov_failed_message_any_position :
   forall S (ms1 ms2 : list (S -> result S)) f pre_exec set_status pre s1 s',
